@@ -85,6 +85,13 @@ def main():
                     or (s.startswith("prop=") and meta["property"] == s[5:]):
                 todo.append((n, meta))
                 break
+    if "harmless" in sel:
+        # behaviour-preserving rewrites kept under /verif/harmless: no check may report anything
+        for d in sorted(glob.glob(os.path.join(V, "harmless", "H*"))):
+            hm = json.load(open(os.path.join(d, "meta.json")))
+            for c in hm["checks"]:
+                todo.append(("%s-%s" % (os.path.basename(d), c),
+                             {"property": c, "caught_by": [], "clean": True, "patch": os.path.join(d, "patch.diff")}))
     if "clean" in sel:
         # the unchanged tree through the same machinery (must come out NOT-CAUGHT for every check)
         for c in (checks or []):
@@ -111,7 +118,9 @@ def main():
                     break
                 patch = os.path.join(V, "seeded", n, "patch.diff")
                 t0 = time.time()
-                rc, out = (0, "") if meta.get("clean") else sh("git -C %s apply --whitespace=nowarn %s" % (repo, patch))
+                if meta.get("patch"):
+                    patch = meta["patch"]
+                rc, out = (0, "") if (meta.get("clean") and not meta.get("patch")) else sh("git -C %s apply --whitespace=nowarn %s" % (repo, patch))
                 if rc != 0:
                     with lock:
                         results[n] = {"error": "patch does not apply: " + out[-200:]}
@@ -167,6 +176,10 @@ def main():
             meta["how"] = how
             json.dump(meta, open(os.path.join(V, "seeded", n, "meta.json"), "w"), indent=1, ensure_ascii=False)
     shutil.rmtree(ROOT, ignore_errors=True)
+    false_alarms = [n for n, m in todo if m.get("clean") and any(x.get("caught") or x.get("rc") for x in results.get(n, {}).values() if isinstance(x, dict))]
+    if false_alarms:
+        print("FALSE ALARMS (a check reported something on the unchanged tree or on a behaviour-preserving rewrite): " + " ".join(false_alarms))
+        regress = regress + false_alarms
     print("checked %d change(s); no longer caught by their own property's check: %s" % (len(todo), " ".join(regress) or "none"))
     sys.exit(1 if regress else 0)
 
